@@ -48,13 +48,23 @@
    [C02_ring_to_ring_all].  Call level: [C02_stream_delivers_all] for a reader that makes room
    before each call.
 
-   What remains outside the theorems (hence "partial" overall): the transport between the rings
-   (mptio stream glue, kernel sockets) is executed and compared with the specification
-   [sspec_run] only; the reader theorems take the bytes as already wired into the ring. *)
+   THE STREAM GLUE (mptio: mpt_stream_push / flush / poll / dispatch, model GlueRun.v with the
+   kernel as an oracle): [C02_glue_history_safe] -- for EVERY history of glue operations from fresh
+   streams (ring capacities incl. none, any offsets) and EVERY kernel behaviour (partial, zero and
+   failing transfers): unless the reader's decoder has reported a genuine decoding error, what the
+   dispatcher has handed to the message handler is a prefix of the messages completed on the writer
+   side, and those are the messages the return values of mpt_stream_push say.  The proof shows
+   that each glue operation is a sequence of ring-level writer and reader operations
+   ([C02_glue_step_refines]), so the ring theorems above apply.
+
+   What remains outside the theorems (hence "partial" overall): liveness of the glue (that a drain
+   delivers everything) is decided against the specification [sspec_run] only; the poll() paths
+   with a timeout, POLLOUT handling and memory-mapped streams are not modelled. *)
 From MptV Require Import Base.Mem Cobs.CobsModel Cobs.DecModel Cobs.EncProofs Cobs.EncTheorems
   Cobs.DecProofs Cobs.DecComplete Cobs.StreamSpec Cobs.StreamProofs
   C13.QueueModel Cobs.QueueCodec Cobs.QueuePushProofs Cobs.QueuePushTheorem Cobs.WriterHistory
-  Cobs.DecCall Cobs.DecHistory Cobs.ReaderHistory Cobs.DecLive Cobs.ReaderLive Cobs.EndToEnd.
+  Cobs.DecCall Cobs.DecHistory Cobs.ReaderHistory Cobs.DecLive Cobs.ReaderLive Cobs.EndToEnd
+  Cobs.GlueRun Cobs.GlueProofs.
 
 Theorem C02_wire_splits_into_frames :
   forall v ms wire, frames_of v ms wire ->
@@ -196,6 +206,29 @@ Proof.
   split; [apply rh_run_inv, rh_init_inv; cbn [length repeat]; lia|]. vm_compute. repeat split; reflexivity.
 Qed.
 
+Theorem C02_glue_step_refines :
+  forall v w g o w' z got, variant_ok v -> grel v w g -> gstep v w o = Ok (w', z, got) ->
+    exists g', grel v w' g' /\ g_del g' = g_del g ++ got /\ sp_of g' = gspec_step (sp_of g) o z.
+Proof. exact gstep_rel. Qed.
+
+Theorem C02_glue_history_safe :
+  forall v wcap woff rcap roff ops w' sp' del', variant_ok v ->
+    gfold v (gworld_init wcap woff rcap roff) (mkgsp [] []) [] ops = Ok (w', sp', del') ->
+    exists g', grel v w' g' /\ g_del g' = del' /\ wh_done (g_ws g') = sp_done sp' /\
+      (rh_stop (g_rs g') = false -> del' = firstn (length del') (sp_done sp')).
+Proof. exact glue_history_safe. Qed.
+
+(* non-vacuity: fresh streams without buffers, two ZPE messages, a failing write, a write of 0,
+   partial writes and single-byte reads, dispatches in between: both messages arrive *)
+Example C02_glue_example :
+  match gfold v_zpe (gworld_init 0 0 0 0) (mkgsp [] []) []
+          [GPush [65;0;0;66]%N; GFin; GFlush (-1); GFlush 0; GFlush 3; GPoll 1; GDisp; GPush [7]%N; GFin;
+           GFlush 100; GPoll 2; GDisp; GPoll 100; GDisp; GDisp; GDrain] with
+  | Ok (w', sp', del') => sp_done sp' = [[65;0;0;66]; [7]]%N /\ del' = [[65;0;0;66]; [7]]%N /\ gwire w' = []
+  | _ => False
+  end.
+Proof. vm_compute. auto. Qed.
+
 (* non-vacuity: an 8-byte reader ring starting at offset 5 (data wraps, consumed prefixes are
    shifted out), three frames arriving in three pieces; the history does not stop *)
 Example C02_ring_reader_example :
@@ -258,3 +291,5 @@ Print Assumptions C02_stream_delivers_all.
 Print Assumptions C02_ring_round_delivers.
 Print Assumptions C02_ring_reader_delivers_all.
 Print Assumptions C02_ring_to_ring_all.
+Print Assumptions C02_glue_step_refines.
+Print Assumptions C02_glue_history_safe.
